@@ -21,21 +21,25 @@ ASSUME = ['floating-point results are accepted within 1e-9 relative to the magni
           'binary floating point (order <= 2 with entries 0, +-1, +-2, +-4 times 1 or i, or hand-verified fixed '
           'matrices); for other exactly singular inputs either ArithmeticError or a result is accepted',
           'strict opposite triangles are required to be untouched only where the documentation names the triangle '
-          'that is overwritten (potrf, potri, posv, trtri); for sytrf/hetrf/sysv/hesv/sytri/hetri and the eigenvalue '
+          'that is overwritten (potrf, potri, posv); for sytrf/hetrf/sysv/hesv/sytri/hetri/trtri and the eigenvalue '
           'routines the opposite triangle holds junk that must not influence the result but may be overwritten',
           'contents of A after gels / syev* / gesv* with jobz=N ("destroyed") and of factors after a failed '
           'factorization are not inspected',
           'LDL^T factors of sytrf/hetrf and LU factors of gbtrf/gttrf are validated through the solve / inverse '
           'routines that consume them, not reconstructed',
           'gels is exercised on full-rank matrices only (the documentation says rank is not checked)',
-          'ordered Schur forms use selection thresholds at least 1e-3 away from every eigenvalue',
+          'ordered Schur forms use selection thresholds at least 1e-3 away from every eigenvalue; singular pencils '
+          '(|a| + |b| < 1e-6) are excluded from ordered generalized Schur forms',
+          'pbsv / pbtrs never receive offsetB in the bulk enumeration (the documented keyword kills the interpreter on '
+          'the current tree; it is exercised in forked children by family pboff); when gbsv / hegv reject or misassign '
+          'their documented keywords the arithmetic is still checked through the names / positions the C code uses',
           'the default of iu in syevx/syevr/heevx/heevr is not exercised (docstring and lapack.rst disagree)',
           'integer arguments near 2^31 belong to C19']
 BOUNDS = {'quick': 'orders 0..2 over the full integer pools plus the fixed order-3 matrices; nrhs 0..2; 4 (ld, offset) '
-                   'layouts; band widths 0..2; all flag values',
+                   'layouts; band widths 0..2; all flag values; gbtrf with m = n only; gels on full-rank matrices',
           'thorough': 'orders 0..3 (0..4 for eigenvalue / SVD / Schur routines); nrhs 0..2; default layout plus all '
                       '(ld - min in {0,1}) x (offset in {0,1,2}) combinations for the first two operands; band widths '
-                      '0..2; all flag values'}
+                      '0..2; all flag values; gbtrf with m = n only; gels on full-rank matrices'}
 
 PALETTES = [(-1, 0, 1, 2), (-2, 0, 1, 2), (-1, 0, 2, 4), (-4, -1, 0, 1)]
 
@@ -329,10 +333,12 @@ class Ctx(object):
         self.maxerr = {}
         self.outcomes = {}
         self.suppressed = 0
+        self.live = True                 # False while a family issues calls with nrhs = 0
+        self.case_live = not any(case.get(k) == 0 for k in ('n', 'm'))
 
     def count(self, label, nontrivial=True):
         self.n += 1
-        if nontrivial:
+        if nontrivial and self.live and self.case_live:
             self.nontrivial += 1
         self.outcomes[label] = self.outcomes.get(label, 0) + 1
 
@@ -391,9 +397,9 @@ class Ctx(object):
                 self.count(fname + ':rejected', False)
                 return ('reject', None)
             self.count(fname + ':unexpected-exception')
-            kind = 'singular-input-raised-' if expect == 'arith' else 'valid-input-raised-'
+            kind = 'singular-input-raised-' if expect in ('arith', 'either') else 'valid-input-raised-'
             self.bad(keybase + ':' + kind + type(e).__name__, '%s raised %s(%s); expected %s' %
-                     (fname, type(e).__name__, e, 'ArithmeticError' if expect == 'arith' else 'a result'), sub)
+                     (fname, type(e).__name__, e, 'ArithmeticError' if expect in ('arith', 'either') else 'a result'), sub)
             return ('bad', None)
         if expect == 'arith':
             self.count(fname + ':missing-exception')
@@ -486,7 +492,8 @@ def fam_ge(case, c):
         exp = lu_expect(A0, _is_hand_singular(A0))
         sub = _sub(A0, tc=tc, lay=lay)
         X1 = {}
-        for nrhs in (1, 2, 0):
+        for nrhs in (0, 1, 2):
+            c.live = nrhs > 0
             B0 = rhs(n, nrhs, tc)
             dims = {} if lay is None else {'n': n, 'nrhs': nrhs}
             live = n > 0 and nrhs > 0
@@ -530,7 +537,8 @@ def fam_ge(case, c):
                   'P L U = A (ipiv=%r)' % (P.vec(n),), sub)
         # ---- getrs
         Fraw = bytes(memoryview(A.M)); Praw = bytes(memoryview(P.M))
-        for nrhs in (1, 2, 0):
+        for nrhs in (0, 1, 2):
+            c.live = nrhs > 0
             B0 = rhs(n, nrhs, tc)
             dims = {} if lay is None else {'n': n, 'nrhs': nrhs}
             for trans in ('N', 'T', 'C'):
@@ -654,7 +662,8 @@ def fam_gb(case, c):
         X1 = {}
         AB1 = R.gb_pack(A0, kl, ku, 0, _junkfill(tc))
         AB2 = R.gb_pack(A0, kl, ku, kl, _junkfill(tc))
-        for nrhs in (1, 2, 0):
+        for nrhs in (0, 1, 2):
+            c.live = nrhs > 0
             B0 = rhs(n, nrhs, tc)
             live = n > 0 and nrhs > 0
             for with_ipiv in (False, True):
@@ -694,7 +703,8 @@ def fam_gb(case, c):
         if stf != 'ok':
             continue
         Fraw = bytes(memoryview(A.M)); Praw = bytes(memoryview(P.M))
-        for nrhs in (1, 2, 0):
+        for nrhs in (0, 1, 2):
+            c.live = nrhs > 0
             B0 = rhs(n, nrhs, tc)
             for trans in ('N', 'T', 'C'):
                 B = Arr(tc, n, nrhs, B0, layB)
@@ -753,7 +763,8 @@ def fam_gt(case, c):
         exp = lu_expect(A0, _is_hand_singular(A0))
         sub = _sub(A0, tc=tc, lay=lay)
         X1 = {}
-        for nrhs in (1, 2, 0):
+        for nrhs in (0, 1, 2):
+            c.live = nrhs > 0
             B0 = rhs(n, nrhs, tc)
             live = n > 0 and nrhs > 0
             DL, D, DU = vecs(A0); B = Arr(tc, n, nrhs, B0, layB)
@@ -777,7 +788,8 @@ def fam_gt(case, c):
         if stf != 'ok':
             continue
         raws = [bytes(memoryview(v.M)) for v in (DL, D, DU, DU2, P)]
-        for nrhs in (1, 2, 0):
+        for nrhs in (0, 1, 2):
+            c.live = nrhs > 0
             B0 = rhs(n, nrhs, tc)
             for trans in (None, 'N', 'T', 'C'):
                 B = Arr(tc, n, nrhs, B0, layB)
@@ -827,7 +839,8 @@ def fam_po(case, c):
         sub = _sub(Af, tc=tc, uplo=uplo, lay=lay)
         Aj = junk_other(Af, uplo, tc)
         X1 = {}
-        for nrhs in (1, 2, 0):
+        for nrhs in (0, 1, 2):
+            c.live = nrhs > 0
             B0 = rhs(n, nrhs, tc)
             live = n > 0 and nrhs > 0
             A = Arr(tc, n, n, Aj, layA); B = Arr(tc, n, nrhs, B0, layB)
@@ -850,7 +863,8 @@ def fam_po(case, c):
         if n > 0:
             c.err('factor', R.chol_err(A.mat(), Af, uplo), 'potrf:reconstruction:uplo=' + uplo, 'L L^H = A', sub)
         Fraw = bytes(memoryview(A.M))
-        for nrhs in (1, 2, 0):
+        for nrhs in (0, 1, 2):
+            c.live = nrhs > 0
             B0 = rhs(n, nrhs, tc)
             B = Arr(tc, n, nrhs, B0, layB)
             kw = ({} if lay is None else {'n': n, 'nrhs': nrhs}); kw.update(A.kw('A')); kw.update(B.kw('B'))
@@ -915,7 +929,8 @@ def fam_pb(case, c):
                     kw['nrhs'] = nrhs; kw['ldB'] = B.ld
             kw.update(_uplo_kw(uplo, lay))
             return kw
-        for nrhs in (1, 2, 0):
+        for nrhs in (0, 1, 2):
+            c.live = nrhs > 0
             B0 = rhs(n, nrhs, tc)
             live = n > 0 and nrhs > 0
             A = Arr(tc, kd + 1, n, AB, layA); B = Arr(tc, n, nrhs, B0, layB)
@@ -937,7 +952,8 @@ def fam_pb(case, c):
             c.err('factor', R.chol_err(R.sb_unpack_tri(A.mat(), n, kd, uplo), Af, uplo),
                   'pbtrf:reconstruction:uplo=' + uplo, 'L L^H = A (band)', sub)
         Fraw = bytes(memoryview(A.M))
-        for nrhs in (1, 2, 0):
+        for nrhs in (0, 1, 2):
+            c.live = nrhs > 0
             B0 = rhs(n, nrhs, tc)
             B = Arr(tc, n, nrhs, B0, layB)
             st, _ = c.call('pbtrs', lapack.pbtrs, (A.M, B.M), kws(A, B, nrhs), 'ok', 'pbtrs', sub)
@@ -1048,7 +1064,8 @@ def fam_pt(case, c):
         exp = pt_expect(Af) if n > 0 else 'ok'
         sub = _sub(Af, tc=tc, lay=lay)
         X1 = {}
-        for nrhs in (1, 2, 0):
+        for nrhs in (0, 1, 2):
+            c.live = nrhs > 0
             B0 = rhs(n, nrhs, tc)
             live = n > 0 and nrhs > 0
             D, E = vecs(Af); B = Arr(tc, n, nrhs, B0, layB)
@@ -1074,7 +1091,8 @@ def fam_pt(case, c):
             # uplo='U': e holds the superdiagonal of L^H, i.e. the complex conjugates
             Eu = E if uplo == 'L' else Arr(tc, n1, 1, Mat(n1, 1, [[R._cj(x)] for x in E.vec()]), loe)
             raws = [bytes(memoryview(D.M)), bytes(memoryview(Eu.M))]
-            for nrhs in (1, 2, 0):
+            for nrhs in (0, 1, 2):
+                c.live = nrhs > 0
                 B0 = rhs(n, nrhs, tc)
                 B = Arr(tc, n, nrhs, B0, layB)
                 kw = ({} if lay is None else {'n': n, 'nrhs': nrhs}); kw.update(okw(D, Eu)); kw.update(B.kw('B'))
@@ -1117,7 +1135,8 @@ def fam_sy(case, c):
         sub = _sub(Af, tc=tc, uplo=uplo, lay=lay)
         Aj = junk_other(Af, uplo, tc)
         X1 = {}
-        for nrhs in (1, 2, 0):
+        for nrhs in (0, 1, 2):
+            c.live = nrhs > 0
             B0 = rhs(n, nrhs, tc)
             live = n > 0 and nrhs > 0
             for with_ipiv in (False, True):
@@ -1152,7 +1171,8 @@ def fam_sy(case, c):
         if stf != 'ok':
             continue
         Fraw = _raw(A.M); Praw = _raw(P.M)
-        for nrhs in (1, 2, 0):
+        for nrhs in (0, 1, 2):
+            c.live = nrhs > 0
             B0 = rhs(n, nrhs, tc)
             B = Arr(tc, n, nrhs, B0, layB)
             kw = ({} if lay is None else {'n': n, 'nrhs': nrhs}); kw.update(A.kw('A')); kw.update(B.kw('B'))
@@ -1214,7 +1234,8 @@ def fam_tr(case, c):
     for Ts, Tm, exp in _part(_tri_pool(n, tc, uplo, diag, seed), case):
         sub = _sub(Tm, tc=tc, uplo=uplo, diag=diag, lay=lay)
         fl = {} if (lay is None and uplo == 'L' and diag == 'N') else {'uplo': uplo, 'diag': diag}
-        for nrhs in (1, 2, 0):
+        for nrhs in (0, 1, 2):
+            c.live = nrhs > 0
             B0 = rhs(n, nrhs, tc)
             for trans in ('N', 'T', 'C'):
                 A = Arr(tc, n, n, Ts, layA); B = Arr(tc, n, nrhs, B0, layB)
@@ -1265,7 +1286,8 @@ def fam_tb(case, c):
         Tst = R.band_mask(Ts, kd if uplo == 'L' else 0, kd if uplo == 'U' else 0)   # keeps diagonal junk for diag='U'
         AB = R.sb_pack(Tst, kd, uplo, _junkfill(tc))
         sub = _sub(Tb, tc=tc, uplo=uplo, diag=diag, kd=kd, lay=lay)
-        for nrhs in (1, 2, 0):
+        for nrhs in (0, 1, 2):
+            c.live = nrhs > 0
             B0 = rhs(n, nrhs, tc)
             for trans in ('N', 'T', 'C'):
                 A = Arr(tc, kd + 1, n, AB, layA); B = Arr(tc, n, nrhs, B0, layB)
@@ -1308,7 +1330,8 @@ def fam_ls(case, c):
         if k > 0 and R.rank_exact(A0) < k:
             continue            # rank deficient: documented as unchecked
         sub = _sub(A0, tc=tc, lay=lay)
-        for nrhs in (1, 2, 0):
+        for nrhs in (0, 1, 2):
+            c.live = nrhs > 0
             for trans in ('N', 'T', 'C'):
                 if tc == 'z' and trans == 'T':
                     A = Arr(tc, m, n, A0, layA); B = Arr(tc, max(m, n), nrhs, rhs(max(m, n), nrhs, tc), layB)
@@ -2448,7 +2471,6 @@ def cases_meta(tier, seed):
 
 CASEGENS.append(cases_meta)
 
-#@@FAMILIES@@
 
 
 def cases(tier, seed, flavour):
@@ -2458,10 +2480,11 @@ def cases(tier, seed, flavour):
 
 
 def crash_key(case):
-    return '%s:%s' % (case.get('f'), case.get('tc'))
+    return ':'.join(str(case.get(k)) for k in ('f', 'fn', 'kind', 'tc') if case.get(k) is not None)
 
 
 def run(case):
+    from mc import cvx      # asserts that the staged working-tree build of cvxopt is the one imported
     c = Ctx(case)
     try:
         FAMILIES[case['f']](case, c)
